@@ -513,3 +513,49 @@ mod trait_layer {
 pub fn layer_trait(req: &Value) -> Value {
     trait_layer::run(req)
 }
+
+/// C20: one fixed trait-API create with two process scopes, two exec.d programs and two SBOMs; returns the byte contents
+/// of everything written (each call of the driver binary is a fresh process with a fresh hash seed)
+#[allow(deprecated)]
+pub fn layer_det(_req: &Value) -> Value {
+    use libcnb::data::layer_content_metadata::LayerTypes;
+    use libcnb::layer::{Layer, LayerResult, LayerResultBuilder};
+    struct Det(PathBuf);
+    impl Layer for Det {
+        type Buildpack = B;
+        type Metadata = M;
+        fn types(&self) -> LayerTypes {
+            LayerTypes { launch: true, build: true, cache: true }
+        }
+        fn create(&mut self, _c: &BuildContext<B>, _p: &Path) -> Result<LayerResult<M>, String> {
+            let mut env = LayerEnv::new();
+            for (p, n) in [("web", "X"), ("worker", "Y"), ("clock", "W"), ("release", "V")] {
+                env.insert(Scope::Process(p.into()), ModificationBehavior::Override, n, "v");
+            }
+            env.insert(Scope::Launch, ModificationBehavior::Append, "Z", "z");
+            let mut b = LayerResultBuilder::new(M { v: "id".into() }).env(env);
+            for n in ["p1", "p2", "p3", "p4", "p5"] {
+                b = b.exec_d_program(n, self.0.join("src/prog"));
+            }
+            b.sbom(Sbom { format: libcnb::data::sbom::SbomFormat::CycloneDxJson, data: b"a".to_vec() })
+                .sbom(Sbom { format: libcnb::data::sbom::SbomFormat::SpdxJson, data: b"b".to_vec() })
+                .build()
+        }
+    }
+    let tmp = tempfile::tempdir().unwrap();
+    let root = tmp.path();
+    std::fs::create_dir_all(root.join("L")).unwrap();
+    std::fs::create_dir_all(root.join("src")).unwrap();
+    std::fs::write(root.join("src/prog"), "prog").unwrap();
+    let ctx = build_context(&root.join("L"));
+    let r = ctx.handle_layer("n1".parse().unwrap(), Det(root.to_path_buf()));
+    let mut snap = snapshot(&root.join("L"));
+    if let Value::Array(a) = &mut snap {
+        for e in a.iter_mut() {
+            if let Value::Object(o) = e {
+                o.remove("bytes");
+            }
+        }
+    }
+    json!({"ok": r.is_ok(), "tree": snap})
+}
